@@ -62,6 +62,8 @@ SHAPES = {
     "formfeed": lambda b: b + b"\x0c\nX = 1\n",
     "unparseable-sibling": None,
     "second-file": None,
+    "symlink-to-project-file": None,
+    "symlink-to-outside-file": None,
 }
 
 
@@ -105,7 +107,7 @@ def configs(tier):
         out.append((key, (1, 0, 0, 0), ("verbose",)))
     for key in CODEMODS:
         for sh in SHAPES:
-            if key == "sonar" and sh in ("second-file", "unparseable-sibling"):
+            if key == "sonar" and sh in ("second-file", "unparseable-sibling", "symlink-to-project-file", "symlink-to-outside-file"):
                 continue  # the result file names app.py only
             out.append((key, (1, 0, 0, 0), (f"shape:{sh}",)))
     for key in CODEMODS:
@@ -116,7 +118,7 @@ def configs(tier):
     if tier == "thorough":
         for key in CODEMODS:
             for sh in SHAPES:
-                if key == "sonar" and sh in ("second-file", "unparseable-sibling"):
+                if key == "sonar" and sh in ("second-file", "unparseable-sibling", "symlink-to-project-file", "symlink-to-outside-file"):
                     continue
                 out += [(key, (0, 0, 0, 0), (f"shape:{sh}",)), (key, (1, 1, 1, 1), (f"shape:{sh}", "workers4"))]
         for c in combos:
@@ -153,6 +155,10 @@ def jobs_for(cfg):
                 files["pkg/broken.py"] = files["app.py"] + b"def (:\n"
             elif name == "second-file":
                 files["pkg/deep/again.py"] = files["app.py"]
+            elif name == "symlink-to-project-file":
+                files["pkg/alias.py"] = ("symlink", "../app.py")
+            elif name == "symlink-to-outside-file":
+                files["pkg/alias.py"] = ("symlink", "../../outside/sibling.py")
             else:
                 files["app.py"] = SHAPES[name](files["app.py"])
     outside = {"sibling.py": CODEMODS[cm_key][1], "requirements.txt": b"requests\n"}
